@@ -331,7 +331,12 @@ def _get_desc_filter(w: ZorgQueryParser.Desc_filterContext) -> DescFilter:
 def _get_property_filter(
     w: ZorgQueryParser.Prop_filterContext,
 ) -> PropertyFilter:
-    key, op_value = w.getText().split(":")
+    # A value that looks like a short or relative date (e.g. 'due:240101' or
+    # 'due:0d') is lexed, together with the colon, as one DATE_RANGE_TAIL
+    # token. The parser then reports (and conjures) a missing ':' token whose
+    # text would otherwise end up in the middle of the property filter.
+    text = w.getText().replace("<missing ':'>", "")
+    key, op_value = text.split(":", maxsplit=1)
     negated = False
     if key[0] == "!":
         negated = True
